@@ -68,6 +68,8 @@ async def build_gated_engine(s, schema_name, oracle_ref, rec, cfg):
                 return entry["ret"][1]
             if out[2]:
                 raise DemoError(out[1], extensions={"code": 7} if out[3] else None)
+            if len(out) > 4:
+                raise execgen.PlainCoercible(out[1])
             raise RuntimeError(out[1])
         return r
 
